@@ -306,6 +306,20 @@ fn run(case: &Case, out: &mut Out) {
                 }
                 out.obs(&[]);
             }
+            // black box: a REAL worker (lib/src/server.rs event loop, send_queue,
+            // read_channel_messages_and_notify) whose command channel is put under
+            // back-pressure: n requests with large echoed ids are written while
+            // nothing is read, then the responses are read back slowly. Every
+            // response must arrive exactly once, in order.
+            "bb_worker" => {
+                let (init, max, n, pause_ms) = (a[0].n() as u64, a[1].n() as u64, a[2].n() as usize, a[3].n() as u64);
+                let (got, inorder) = bb_worker(init, max, n, pause_ms, out);
+                out.obs(&[tn(got), ts(if inorder { "inorder" } else { "disorder" })]);
+                if got != n || !inorder {
+                    out.viol("worker-backpressure", &format!(
+                        "{got} of {n} worker responses delivered (in order: {inorder}) on a {init}/{max} command channel under back-pressure"));
+                }
+            }
             // blocking-mode read with a short timeout (all bytes the case sends are
             // already in the socket, so it never waits unless the frame is incomplete)
             "read_b" => {
@@ -473,6 +487,47 @@ fn turn(s: &mut St, out: &mut Out) -> Vec<Tok> {
         }
     }
     t
+}
+
+fn bb_request_id(i: usize, max: u64) -> String {
+    let mut id = format!("REQ-{i:06}-");
+    while id.len() < max as usize - 100 {
+        id.push(char::from(b'a' + (i % 26) as u8));
+    }
+    id
+}
+
+fn bb_worker(init: u64, max: u64, n: usize, pause_ms: u64, out: &mut Out) -> (usize, bool) {
+    use sozu_command_lib::config::ListenerBuilder;
+    use sozu_command_lib::proto::command::{request::RequestType, QueryClustersHashes, SocketAddress, WorkerRequest};
+    use std::time::Duration;
+    let port = std::net::TcpListener::bind("127.0.0.1:0").unwrap().local_addr().unwrap().port();
+    let http_listener = ListenerBuilder::new_http(SocketAddress::new_v4(127, 0, 0, 1, port)).to_http(None).expect("listener");
+    let (mut command, proxy): (Channel<WorkerRequest, WorkerResponse>, Channel<WorkerResponse, WorkerRequest>) =
+        Channel::generate(init, max).expect("channel pair");
+    std::thread::spawn(move || {
+        let _ = sozu_lib::http::testing::start_http_worker(http_listener, proxy, 10, 16_384);
+    });
+    for i in 0..n {
+        let request = WorkerRequest { id: bb_request_id(i, max), content: RequestType::QueryClustersHashes(QueryClustersHashes {}).into() };
+        if let Err(e) = command.write_message(&request) {
+            out.note(&format!("invalid-case: cannot write request {i}: {e}"));
+            return (0, false);
+        }
+    }
+    std::thread::sleep(Duration::from_millis(pause_ms));
+    let mut ids: Vec<String> = vec![];
+    while ids.len() < n {
+        match command.read_message_blocking_timeout(Some(Duration::from_secs(8))) {
+            Ok(r) => ids.push(r.id),
+            Err(_) => break,
+        }
+        if ids.len() % 10 == 0 {
+            std::thread::sleep(Duration::from_millis(10));
+        }
+    }
+    let inorder = ids.iter().enumerate().all(|(i, id)| *id == bb_request_id(i, max));
+    (ids.len(), inorder)
 }
 
 fn a_init(case: &Case) -> usize {
